@@ -336,7 +336,7 @@ impl State {
                         the_current_infix: None,
                         infix_format: InfixFormat::Std,
                     },
-                    infix_from_timestamp(&ts, self.config.use_utc, &InfixFormat::Std),
+                    self.infix_for_direct_start(&ts, &InfixFormat::Std),
                 )
             }
             Naming::Timestamps => (
@@ -374,7 +374,7 @@ impl State {
                 } else {
                     let fmt = InfixFormat::custom(ts_fmt);
                     let ts = latest_timestamp_file(&self.config, !self.config.append, &fmt);
-                    let infix = infix_from_timestamp(&ts, self.config.use_utc, &fmt);
+                    let infix = self.infix_for_direct_start(&ts, &fmt);
                     (
                         NamingState::Timestamps {
                             current_timestamp: ts,
@@ -440,6 +440,19 @@ impl State {
             write,
             path,
         ))
+    }
+
+    // Without append we start a new file, so we must not reuse (and truncate)
+    // a file that an earlier run has written within the same timestamp.
+    fn infix_for_direct_start(&self, ts: &DateTime<Local>, fmt: &InfixFormat) -> String {
+        let infix = infix_from_timestamp(ts, self.config.use_utc, fmt);
+        if self.config.append {
+            infix
+        } else {
+            self.config
+                .file_spec
+                .collision_free_infix_for_rotated_file(&infix)
+        }
     }
 
     pub fn config(&self) -> &FileLogWriterConfig {
